@@ -1128,14 +1128,8 @@ func (w *World) checkFailover(bound time.Duration) {
 	bound0 := bound
 	for ti, tp := range p.Targets {
 		addr := targetAddr(ti)
-		// a probe (or call) answered by the target just before it went away reports it alive up to
-		// its scripted latency later: detection cannot be faster than that
-		bound = bound0
-		for _, l := range tp.Lat {
-			if d := time.Duration(l[1]) * time.Microsecond; bound0+d > bound {
-				bound = bound0 + d
-			}
-		}
+		// detection = the next detector tick plus the time its refused probe takes
+		bound = bound0 + time.Duration(p.Params["refuse_us"])*time.Microsecond
 		for k, e := range tp.Up {
 			from := time.Duration(e[0]) * time.Millisecond
 			until := time.Duration(1<<62 - 1)
@@ -1143,25 +1137,39 @@ func (w *World) checkFailover(bound time.Duration) {
 				until = time.Duration(tp.Up[k+1][0]) * time.Millisecond
 			}
 			if e[1] == 0 {
-				// down in [from, until)
-				first := time.Duration(-1)
-				for _, rr := range cs.routes {
-					if rr.User && rr.Addr == addr && rr.ErrKind == "dial" && rr.ArriveT >= from && rr.ArriveT < until {
-						first = rr.ArriveT
-						break
+				// down in [from, until): the Client learns about it from refused calls; an answer the
+				// target sent before it went away (a slow probe or call still in flight) may arrive
+				// later and legitimately says "alive" again. So: after a refused user call that is not
+				// followed by such a late success, no user call goes to the target later than the bound.
+				for _, ref := range cs.routes {
+					if !(ref.User && ref.Addr == addr && ref.ErrKind == "dial" && ref.ArriveT >= from && ref.ArriveT < until) {
+						continue
 					}
-				}
-				if first < 0 {
-					continue
-				}
-				w.Probe("target-refused")
-				for _, rr := range cs.routes {
-					if rr.User && rr.Addr == addr && rr.ArriveT > first+bound && rr.ArriveT < until {
-						sig := "refusing-target-still-used"
-						if p.Params["blocking_only"] == 0 && p.Params["mode"] == 0 {
-							sig += ":async-forms-in-mix"
+					w.Probe("target-refused")
+					superseded := false
+					for _, ok := range cs.routes {
+						if ok.Addr == addr && ok.Err == "" && ok.EndT > ref.ArriveT && ok.EndT < until {
+							superseded = true
+							break
 						}
-						w.Violate("C18.failover", sig, fmt.Sprintf("%s call at %v still routed to %s, which has refused since %v (first refused call %v, bound %v)", rr.Form, rr.ArriveT, rr.Addr, from, first, bound))
+					}
+					if superseded {
+						w.Probe("refusal-followed-by-a-late-answer")
+						continue
+					}
+					found := false
+					for _, rr := range cs.routes {
+						if rr.User && rr.Addr == addr && rr.ArriveT > ref.ArriveT+bound && rr.ArriveT < until {
+							sig := "refusing-target-still-used"
+							if p.Params["blocking_only"] == 0 && p.Params["mode"] == 0 {
+								sig += ":async-forms-in-mix"
+							}
+							w.Violate("C18.failover", sig, fmt.Sprintf("%s call at %v still routed to %s, which has refused since %v (a call was refused at %v and nothing it had sent earlier arrived after that; bound %v)", rr.Form, rr.ArriveT, rr.Addr, from, ref.ArriveT, bound))
+							found = true
+							break
+						}
+					}
+					if found {
 						break
 					}
 				}
